@@ -66,12 +66,23 @@ class Vector(object):
         return 'Vector(%r)' % (self.items,)
 
 
+class Opaque(object):
+    """Value with identity equality (no __eq__, as most plain service objects): equal only to itself, hashable by
+    identity. Serialises and copies like any plain object. The harness compares it with same_vector()."""
+
+    def __init__(self, items=()):
+        self.items = list(items)
+
+    def __repr__(self):
+        return 'Opaque(%r)' % (self.items,)
+
+
 def same_vector(a, b):
-    return type(a) is Vector and type(b) is Vector and a.items == b.items
+    return type(a) in (Vector, Opaque) and type(b) is type(a) and a.items == b.items
 
 
 def has_vector(x):
-    if type(x) is Vector:
+    if type(x) in (Vector, Opaque):
         return True
     if isinstance(x, dict):
         return any(has_vector(v) for v in x.values())
@@ -86,7 +97,7 @@ def deep_same(a, b):
         return a == b and type(a) is type(b)
     if type(a) is not type(b):
         return False
-    if type(a) is Vector:
+    if type(a) in (Vector, Opaque):
         return same_vector(a, b)
     if isinstance(a, dict):
         return set(a) == set(b) and all(deep_same(a[k], b[k]) for k in a)
@@ -155,6 +166,8 @@ def build(d, memo=None):
         return Unencodable()
     if t == 'vector':
         return Vector(build(d['v'], memo))
+    if t == 'opaque':
+        return Opaque(build(d['v'], memo))
     if t == 'shared':
         if d['id'] not in memo:
             memo[d['id']] = build(d['v'], memo)
@@ -290,7 +303,7 @@ json_values = st.recursive(json_scalars, lambda c: st.one_of(
 
 # mutable shapes and in-place mutations (C11)
 def is_mutable(v):
-    return isinstance(v, (list, dict, set, Obj))
+    return isinstance(v, (list, dict, set, Obj, Vector, Opaque))
 
 
 def mutate_in_place(v, how):
@@ -327,6 +340,9 @@ def mutate_in_place(v, how):
         return True
     if isinstance(v, set):
         v.add('MUTATED')
+        return True
+    if type(v) in (Vector, Opaque):
+        v.items.append('MUTATED')
         return True
     if isinstance(v, Obj):
         if how % 2:
